@@ -28,6 +28,7 @@ pub struct X {
     longest: u64,
     texts: u64,
     panics: u64,
+    scalar_texts: u64,
     hashes: std::collections::HashSet<u64>,
 }
 
@@ -340,6 +341,41 @@ pub fn run(ctx: &Ctx) -> Rep {
                     buf.push(b);
                 }
                 check_token(st, &buf);
+            }
+            // ... and inside hand texts of every size: glued in front of the first card, as a token of its own in
+            // front, glued behind the last card, and wedged between the first two cards - so that a hand parser
+            // (or the bit-set parser) that treats some character specially (strips it, splits on it, stops at it)
+            // is seen doing so, not only the single-token parser
+            if ctx.smoke() && lo % 64 != 1 {
+                continue;
+            }
+            const CARDS: [&str; 7] = ["AS", "KD", "QC", "JH", "TS", "9S", "8D"];
+            for n in 2..=7usize {
+                for shape in 0..4 {
+                    buf.clear();
+                    match shape {
+                        0 => {
+                            buf.push(c);
+                            buf.push_str(&CARDS[..n].join(" "));
+                        }
+                        1 => {
+                            buf.push(c);
+                            buf.push(' ');
+                            buf.push_str(&CARDS[..n - 1].join(" "));
+                        }
+                        2 => {
+                            buf.push_str(&CARDS[..n].join(" "));
+                            buf.push(c);
+                        }
+                        _ => {
+                            buf.push_str(CARDS[0]);
+                            buf.push(c);
+                            buf.push_str(&CARDS[1..n].join(" "));
+                        }
+                    }
+                    check_text(st, &buf);
+                    st.x.scalar_texts += 1;
+                }
             }
         }
     });
@@ -690,6 +726,7 @@ pub fn run(ctx: &Ctx) -> Rep {
         acc.tokens_blank += x.tokens_blank;
         acc.texts += x.texts;
         acc.panics += x.panics;
+        acc.scalar_texts += x.scalar_texts;
         acc.longest = acc.longest.max(x.longest);
         for k in 0..8 {
             acc.hand_fewer[k] += x.hand_fewer[k];
@@ -707,6 +744,7 @@ pub fn run(ctx: &Ctx) -> Rep {
     rep.add("texts_through_every_entry_point", acc.texts);
     rep.add("max.longest_text_bytes", acc.longest);
     rep.add("panics_caught", acc.panics);
+    rep.add("hand_texts_with_each_scalar_value_in_four_positions", acc.scalar_texts);
     for n in 2..=7 {
         rep.add(&format!("size{}.texts_with_fewer_tokens", n), acc.hand_fewer[n]);
         rep.add(&format!("size{}.texts_with_exactly_n_tokens", n), acc.hand_exact[n]);
